@@ -56,6 +56,10 @@ fn fresh_name(rng: &mut Rng, n: usize) -> String {
 pub struct Naming {
     pub names: Vec<String>,
     pub adversarial: Vec<usize>,
+    /// a global variable shares its name with a variable of another namespace or with a local: the Metal exporter passes
+    /// mutable globals as parameters named by their leaf name, so such programs hit KF-C15-8 / KF-C15-9 and executing the
+    /// emitted Metal (with globals matched by leaf name) says nothing further
+    pub shared_global_name: bool,
 }
 
 pub fn naming(p: &Program, rng: &mut Rng, adversarial: bool) -> Naming {
@@ -165,7 +169,39 @@ pub fn naming(p: &Program, rng: &mut Rng, adversarial: bool) -> Naming {
         used.insert(name.clone());
         out.push(name);
     }
-    Naming { names: out, adversarial: adv }
+    // names shared between namespaces, locals and globals (a quarter of the adversarial namings): a variable inside a namespace
+    // takes the name of a global-scope variable (or of a variable of another namespace), a local / parameter takes the name of a
+    // global. The renamed program is a program of its own: what it means is established on itself (M3), so a shadowing that the
+    // sharing creates in the source is part of that meaning and must survive the export.
+    let mut shared_global_name = false;
+    if adversarial && rng.chance(1, 4) && p.ns_of.len() == p.idents.len() {
+        let vars: Vec<usize> = (0..p.idents.len()).filter(|i| p.idents[*i].kind == IdKind::Global).collect();
+        let locals: Vec<usize> = (0..p.idents.len()).filter(|i| matches!(p.idents[*i].kind, IdKind::Local | IdKind::Param)).collect();
+        let inside: Vec<usize> = vars.iter().copied().filter(|i| p.ns_of[*i].is_some()).collect();
+        for _ in 0..1 + rng.below(2) {
+            if !inside.is_empty() && rng.chance(1, 2) {
+                let n = *rng.pick(&inside);
+                let others: Vec<usize> = vars.iter().copied().filter(|o| *o != n && p.ns_of[*o] != p.ns_of[n]).collect();
+                if !others.is_empty() {
+                    let o = *rng.pick(&others);
+                    out[n] = out[o].clone();
+                    shared_global_name = true;
+                    adv.push(n);
+                    adv.push(o);
+                }
+            } else if !locals.is_empty() && !vars.is_empty() {
+                let l = *rng.pick(&locals);
+                let g = *rng.pick(&vars);
+                out[l] = out[g].clone();
+                shared_global_name = true;
+                adv.push(l);
+                adv.push(g);
+            }
+        }
+        adv.sort();
+        adv.dedup();
+    }
+    Naming { names: out, adversarial: adv, shared_global_name }
 }
 
 fn tokens(text: &str) -> Vec<String> {
@@ -264,6 +300,8 @@ pub fn examine(case: &Case, origin: &str, seed: u64, report: &mut Report) -> boo
     let msl_reserved: HashSet<String> = names::msl_reserved().into_iter().collect();
     let skip_verbatim = overloaded_or_template(p);
     let mut any = false;
+    // targets whose emitted declarations clash (reported by M2): executing such output says nothing further
+    let mut clash_targets: HashSet<&'static str> = HashSet::new();
     for t in [Tgt::Dx, Tgt::Msl] {
         let o0 = compile_one(&text0, t);
         let Outcome::Ok(p0) = &o0 else {
@@ -293,10 +331,12 @@ pub fn examine(case: &Case, origin: &str, seed: u64, report: &mut Report) -> boo
                 .set("origin", origin)
                 .set("target", t.name())
                 .set("naming", case.mode)
+                .set("shared_global_name", case.s1.shared_global_name)
                 .set("arg_seed", Json::Str(seed.to_string()))
                 .set("program_s0", text0.as_str())
                 .set("program_s1", text1.as_str())
                 .set("multi_s0", Json::Arr(p.multi.iter().map(|i| Json::str(&p.idents[*i].name)).collect()))
+                .set("global_scope_s0", Json::Arr(p.idents.iter().filter(|i| !matches!(i.kind, IdKind::Local | IdKind::Param)).map(|i| Json::str(&i.name)).collect()))
                 .set("emitted_s1", p1[0].source.as_str())
                 .set("observed", extra)
         };
@@ -342,16 +382,23 @@ pub fn examine(case: &Case, origin: &str, seed: u64, report: &mut Report) -> boo
                 }
             }
             for (a, b) in decls::clashes(&declared) {
+                if which == "s1" {
+                    clash_targets.insert(t.name());
+                }
+                let mut kinds = [a.kind, b.kind];
+                kinds.sort();
                 report.violation(
-                    "name-clash-in-scope",
+                    &format!("name-clash-in-scope:{}+{}", kinds[0], kinds[1]),
                     &format!("the emitted {} declares {} `{}` and {} `{}` in the same scope {}", t.name(), a.kind, a.name, b.kind, b.name, a.scope),
                     witness(Json::obj().set("first", a.kind).set("second", b.kind).set("name", a.name.as_str()).set("scope", a.scope.as_str()).set("naming", which)),
                 );
             }
             let names_now: Vec<&String> = if which == "s0" { p.idents.iter().map(|i| &i.name).collect() } else { case.s1.names.iter().collect() };
             // a name generated for a global-scope entity must not be the spelling of a user's local or parameter: both would be
-            // visible in that function (source names are unique per entity in these programs, so any such pair is introduced)
-            {
+            // visible in that function (source names are unique per entity in these programs, so any such pair is introduced).
+            // HLSL only: the Metal output carries mutable globals as extra parameters named like the global, which this
+            // declaration-level monitor cannot tell from the user's parameters (the shared name generator is exercised all the same)
+            if t != Tgt::Msl {
                 let user_locals: HashSet<&str> = p.idents.iter().enumerate().filter(|(_, id)| matches!(id.kind, IdKind::Local | IdKind::Param)).map(|(i, _)| names_now[i].as_str()).collect();
                 let user_globals: HashSet<&str> = p.idents.iter().enumerate().filter(|(_, id)| !matches!(id.kind, IdKind::Local | IdKind::Param)).map(|(i, _)| names_now[i].as_str()).collect();
                 let mut seen: HashSet<(String, &'static str)> = HashSet::new();
@@ -408,8 +455,32 @@ pub fn examine(case: &Case, origin: &str, seed: u64, report: &mut Report) -> boo
     }
     // M3: the renamed program still means what it says (C01 / C02 oracles on the renamed source)
     let mut sub = Report::new();
-    crate::checks::c01::examine_program(&text1, origin, seed, &mut sub);
-    crate::checks::c02::examine_program(&text1, origin, seed, &mut sub);
+    // the execution monitors compare static globals by name: a global spelled <another global's name>_N is ambiguous with the
+    // suffixed name the exporters generate for that other global
+    let global_names: Vec<&String> = p.idents.iter().enumerate().filter(|(_, id)| id.kind == IdKind::Global).map(|(i, _)| &case.s1.names[i]).collect();
+    let ambiguous_global = global_names.iter().any(|n| match n.rfind('_') {
+        Some(pos) => {
+            let (base, suffix) = (&n[..pos], &n[pos + 1..]);
+            !suffix.is_empty() && suffix.chars().all(|c| c.is_ascii_digit()) && global_names.iter().any(|m| m.as_str() == base || (m != n && m.starts_with(&format!("{}_", base))))
+        }
+        None => false,
+    });
+    if ambiguous_global {
+        report.count("execution-skipped:ambiguous-suffixed-global-name");
+        return true;
+    }
+    if clash_targets.contains(Tgt::Dx.name()) {
+        report.count("execution-skipped:emitted-hlsl-has-name-clash");
+    } else {
+        crate::checks::c01::examine_program(&text1, origin, seed, &mut sub);
+    }
+    if clash_targets.contains(Tgt::Msl.name()) {
+        report.count("execution-skipped:emitted-msl-has-name-clash");
+    } else if case.s1.shared_global_name {
+        report.count("execution-skipped:msl-globals-passed-by-leaf-name");
+    } else {
+        crate::checks::c02::examine_program(&text1, origin, seed, &mut sub);
+    }
     report.count_n("execution-samples-on-renamed-program", sub.evaluations);
     for v in sub.violations {
         // a user function spelled <other name>_N cannot be told apart by name from the suffixed instances the exporters
@@ -512,11 +583,21 @@ fn replay(ctx: &Ctx, witness: &Json) -> Report {
             entries: Vec::new(),
             features: Vec::new(),
             multi: Vec::new(),
+            ns_of: Vec::new(),
         },
-        s1: Naming { names: names1, adversarial },
+        s1: Naming { names: names1, adversarial, shared_global_name: witness.get("shared_global_name").and_then(|b| b.as_bool()).unwrap_or(false) },
         mode: if witness.get_str("naming") == Some("fresh") { "fresh" } else { "adversarial" },
     };
     let mut case = case;
+    case.program.ns_of = vec![None; case.program.idents.len()];
+    // kinds of the identifiers (recorded since the scope monitors depend on them)
+    if let Some(kinds) = witness.get("global_scope_s0").and_then(|m| m.as_arr()) {
+        for k in kinds {
+            if let Some(i) = case.program.idents.iter().position(|id| Some(id.name.as_str()) == k.as_str()) {
+                case.program.idents[i].kind = IdKind::Global;
+            }
+        }
+    }
     if let Some(multi) = witness.get("multi_s0").and_then(|m| m.as_arr()) {
         for m in multi {
             if let Some(i) = case.program.idents.iter().position(|id| Some(id.name.as_str()) == m.as_str()) {
